@@ -149,7 +149,7 @@ func init() {
 		}
 		return 270 * time.Second
 	}
-	c15 := &simCheckSpec{Prop: "C15", Oracles: []string{"alive", "view"},
+	c15 := &simCheckSpec{Prop: "C15", Oracles: []string{"alive", "view"}, Extra: liveSupplement,
 		Scenarios: aliveScenarios, Budget: budget, MustReach: []string{"commits"},
 		Assume: []string{
 			"the data-race clause cannot be decided by a cooperative explorer (its hand-offs are happens-before edges); it is covered only by the supplementary free-running -race pass reported under coverage.race_pass",
